@@ -131,8 +131,9 @@ class Ref:
                  spec_table=None, max_steps=200000):
         self.prog = program
         self.pop = population
-        self.decisions = list(decisions or [])
-        self.dpos = 0
+        from bvf.env import Decisions
+        self.decisions = Decisions()
+        self.decisions.load(decisions or [])
         self.actual = actual
         self.pos = 0
         self.regs = {r: 0.0 for r in ALL_REGS}
@@ -227,10 +228,7 @@ class Ref:
         if t == 'bin':
             return self.binop(e[1], self.ev(e[2]), self.ev(e[3]))
         if t == 'choose':
-            v = self.decisions[self.dpos] if self.dpos < len(self.decisions) \
-                else 0
-            self.dpos += 1
-            return v
+            return self.decisions.next(e[1])
         if t == 'call':
             return self.call(e[1], [self.ev(a) for a in e[2]], want_value=True)
         raise AssertionError('bad expr ' + repr(e))
@@ -709,6 +707,19 @@ class Ref:
     def s_routine(self, s):
         self.routines[s[1]] = (s[2], s[3])
 
+    def hoist_routines(self, node):
+        """routine definitions are compile-time: a definition nested in an
+        if/repeat body defines the routine whether or not control gets there"""
+        if isinstance(node, list):
+            if node and node[0] == 'routine':
+                self.routines[node[1]] = (node[2], node[3])
+                return
+            for x in node:
+                self.hoist_routines(x)
+        elif isinstance(node, dict):
+            for x in node.values():
+                self.hoist_routines(x)
+
     def s_call(self, s):
         self.call(s[1], [self.ev(a) for a in s[2]])
 
@@ -890,10 +901,12 @@ class Ref:
             raise Undecidable('format error of the script itself: {}'.format(ex))
 
 
-def check(prog, population, decisions, actual, spec_table=None):
+def check(prog, population, decisions, actual, spec_table=None, hoist=False):
     """Run the reference over `actual`.  Returns the Ref that accepted the
     log, or raises Mismatch (with .ref) / Undecidable."""
     ref = Ref(prog, population, decisions, actual, spec_table=spec_table)
+    if hoist:
+        ref.hoist_routines(prog)
     try:
         ref.run()
     except Mismatch as ex:
